@@ -2,7 +2,8 @@ import Rustemo.Model.Lex
 /-!
 # The token iterator over a sorted, flagged terminal list yields exactly the documented survivors
 
-For a list sorted by `key` descending with ties in grammar order and finish flags as
+For a list sorted by `key` (priority, then string length, compared lexicographically) descending
+with ties in grammar order and finish flags as
 `sort_terminals` computes them, and ANY matching function `m`: a terminal is yielded iff it matches,
 has the highest priority among the matching ones and — under most-specific — is the longest
 matching string recognizer (earliest in grammar order among equally long ones) if any string of
@@ -11,16 +12,16 @@ that priority matches, a regex only if none does.
 namespace Rustemo.Lex
 
 def Before (ms : Bool) (a b : TermDesc) : Prop :=
-  key ms a > key ms b ∨ (key ms a = key ms b ∧ a.idx < b.idx)
+  KeyLt (key ms b) (key ms a) ∨ (key ms a = key ms b ∧ a.idx < b.idx)
 
 def Sorted (ms : Bool) : List TermDesc → Prop
   | [] => True
   | a :: rest => (∀ b ∈ rest, Before ms a b) ∧ Sorted ms rest
 
-/-- string recognizers are non-empty and shorter than 1000 bytes (the sort key reserves three digits) -/
+/-- string recognizers are non-empty (an empty one would tie with the regexes of its priority) -/
 def WFT (t : TermDesc) : Prop :=
   match t.strLen with
-  | some n => 1 ≤ n ∧ n < 1000
+  | some n => 1 ≤ n
   | none => True
 
 def Matches (m : Nat → Option Nat) (t : TermDesc) : Prop := (m t.idx).isSome = true
@@ -36,23 +37,31 @@ def Survives (ms : Bool) (m : Nat → Option Nat) (S : List TermDesc) (t : TermD
         u.strLen.getD 0 ≤ t.strLen.getD 0 ∧ (u.strLen.getD 0 = t.strLen.getD 0 → t.idx ≤ u.idx)) ∧
     (t.isStr = false → ∀ u ∈ S, TopPrio m S u → u.isStr = false))
 
-theorem key_prio_le {ms : Bool} {a b : TermDesc} (ha : WFT a) (hb : WFT b) (h : key ms b ≤ key ms a) :
-    b.prio ≤ a.prio := by
-  unfold key at h
-  unfold WFT at ha hb
-  have hx : (if ms then a.strLen.getD 0 else 0) < 1000 := by
-    split
-    · cases hs : a.strLen with
-      | none => simp
-      | some n => rw [hs] at ha; simp; exact ha.2
-    · omega
-  have hy : 0 ≤ (if ms then b.strLen.getD 0 else 0) := Nat.zero_le _
-  omega
+/-- `Before` spelled out: higher priority, or equal priority and longer string, or a tie in
+    grammar order -/
+theorem before_iff {ms : Bool} {a b : TermDesc} : Before ms a b ↔
+    (b.prio < a.prio ∨ (b.prio = a.prio ∧ (key ms b).2 < (key ms a).2) ∨
+      (a.prio = b.prio ∧ (key ms a).2 = (key ms b).2 ∧ a.idx < b.idx)) := by
+  unfold Before KeyLt
+  have h1 : (key ms a).1 = a.prio := rfl
+  have h2 : (key ms b).1 = b.prio := rfl
+  rw [h1, h2]
+  constructor
+  · rintro ((h | h) | ⟨h, hi⟩)
+    · exact Or.inl h
+    · exact Or.inr (Or.inl h)
+    · exact Or.inr (Or.inr ⟨h1 ▸ h2 ▸ congrArg (·.1) h, congrArg (·.2) h, hi⟩)
+  · rintro (h | h | ⟨hp, hl, hi⟩)
+    · exact Or.inl (Or.inl h)
+    · exact Or.inl (Or.inr h)
+    · refine Or.inr ⟨?_, hi⟩
+      show ((key ms a).1, (key ms a).2) = ((key ms b).1, (key ms b).2)
+      rw [h1, h2, hp, hl]
 
-theorem before_prio_le {ms : Bool} {a b : TermDesc} (ha : WFT a) (hb : WFT b) (h : Before ms a b) :
+/-- no well-formedness needed any more: the priority is the first component of the key -/
+theorem before_prio_le {ms : Bool} {a b : TermDesc} (h : Before ms a b) :
     b.prio ≤ a.prio := by
-  apply key_prio_le (ms := ms) ha hb
-  rcases h with h | h <;> omega
+  rcases before_iff.mp h with h | h | h <;> omega
 
 theorem sorted_tail {ms : Bool} {a : TermDesc} {rest : List TermDesc} (h : Sorted ms (a :: rest)) :
     Sorted ms rest := h.2
@@ -74,12 +83,12 @@ theorem withFlags_cons_tail (ms : Bool) (a : TermDesc) (rest : List TermDesc) :
 
 /-- continuing inside a priority group after something matched: the rest of the group -/
 theorem iter_group (ms : Bool) (m : Nat → Option Nat) (p : Nat) :
-    ∀ (R : List TermDesc), Sorted ms R → (∀ u ∈ R, WFT u) →
+    ∀ (R : List TermDesc), Sorted ms R →
       (∀ u ∈ R, u.prio = p → ms = true → u.isStr = false) →
       HeadPrio p R →
       ∀ t l, (t, l) ∈ iter m true (withFlags ms R) ↔ (t ∈ R ∧ t.prio = p ∧ m t.idx = some l)
-  | [], _, _, _, _, t, l => by simp [withFlags, iter]
-  | b :: R', hs, hwf, hns, hhead, t, l => by
+  | [], _, _, _, t, l => by simp [withFlags, iter]
+  | b :: R', hs, hns, hhead, t, l => by
     have hbp : b.prio = p := hhead
     obtain ⟨f, hwf', hf⟩ := withFlags_cons_tail ms b R'
     rw [hwf']
@@ -94,13 +103,12 @@ theorem iter_group (ms : Bool) (m : Nat → Option Nat) (p : Nat) :
       | nil => simp at hu
       | cons c R'' =>
         simp only [nextDiffers, bne_eq_false_iff_eq]
-        have hcb : c.prio ≤ b.prio := before_prio_le (hwf b (by simp)) (hwf c (by simp)) (hs.1 c (by simp))
+        have hcb : c.prio ≤ b.prio := before_prio_le (hs.1 c (by simp))
         rcases List.mem_cons.mp hu with h | h
         · subst h; omega
-        · have : u.prio ≤ c.prio := before_prio_le (hwf c (by simp)) (hwf u (by simp [h])) (hs.2.1 u h)
+        · have : u.prio ≤ c.prio := before_prio_le (hs.2.1 u h)
           omega
-    have ih := iter_group ms m p R' hs.2 (fun u hu => hwf u (by simp [hu]))
-      (fun u hu => hns u (by simp [hu]))
+    have ih := iter_group ms m p R' hs.2 (fun u hu => hns u (by simp [hu]))
     simp only [iter]
     cases hmb : m b.idx with
     | some lb =>
@@ -206,14 +214,14 @@ theorem survives_skip {ms : Bool} {m : Nat → Option Nat} {a : TermDesc} {rest 
       fun hs u _ htu => h4 hs u (hmem u htu) ((topPrio_skip ha u).mp htu)⟩
 
 theorem key_str {ms : Bool} (t : TermDesc) (hms : ms = true) :
-    key ms t = t.prio * 1000 + t.strLen.getD 0 := by unfold key; simp [hms]
+    (key ms t).2 = t.strLen.getD 0 := by unfold key; simp [hms]
 
 theorem isStr_getD_pos {t : TermDesc} (hw : WFT t) (hs : t.isStr = true) : 1 ≤ t.strLen.getD 0 := by
   unfold TermDesc.isStr at hs
   unfold WFT at hw
   cases h : t.strLen with
   | none => rw [h] at hs; simp at hs
-  | some n => rw [h] at hw; simp; exact hw.1
+  | some n => rw [h] at hw; simp; exact hw
 
 theorem notStr_getD {t : TermDesc} (hs : t.isStr = false) : t.strLen.getD 0 = 0 := by
   unfold TermDesc.isStr at hs
@@ -242,7 +250,7 @@ theorem iter_survivors (ms : Bool) (m : Nat → Option Nat) :
       simp only
       have hMa : Matches m a := by unfold Matches; rw [hma]; rfl
       have hprio : ∀ u ∈ rest, u.prio ≤ a.prio :=
-        fun u hu => before_prio_le (hwf a (by simp)) (hwf u (by simp [hu])) (hs.1 u hu)
+        fun u hu => before_prio_le (hs.1 u hu)
       have hTa : TopPrio m (a :: rest) a := by
         refine ⟨by simp, hMa, ?_⟩
         intro u hu _
@@ -275,8 +283,7 @@ theorem iter_survivors (ms : Bool) (m : Nat → Option Nat) :
           · subst h; exact ⟨Nat.le_refl _, fun _ => Nat.le_refl _⟩
           · have hb := hs.1 u h
             have hpu := hTop u htu
-            unfold Before at hb
-            rw [key_str _ hms, key_str _ hms, hpu] at hb
+            rw [before_iff, key_str _ hms, key_str _ hms, hpu] at hb
             constructor
             · rcases hb with hb | hb <;> omega
             · intro heq
@@ -290,8 +297,7 @@ theorem iter_survivors (ms : Bool) (m : Nat → Option Nat) :
             obtain ⟨h3, h4⟩ := hcond hms
             have hpt := hTop t hT
             have hb := hs.1 t h
-            unfold Before at hb
-            rw [key_str _ hms, key_str _ hms, hpt] at hb
+            rw [before_iff, key_str _ hms, key_str _ hms, hpt] at hb
             cases htstr : t.isStr with
             | true =>
               obtain ⟨hle, hidx⟩ := h3 htstr a (by simp) hTa hastr
@@ -312,8 +318,7 @@ theorem iter_survivors (ms : Bool) (m : Nat → Option Nat) :
             exfalso
             have hastr : a.isStr = false := by simpa [hms] using hstr'
             have hb := hs.1 u hu
-            unfold Before at hb
-            rw [key_str _ hms, key_str _ hms, hup, notStr_getD hastr] at hb
+            rw [before_iff, key_str _ hms, key_str _ hms, hup, notStr_getD hastr] at hb
             have := isStr_getD_pos (hwf u (by simp [hu])) hus
             rcases hb with hb | hb <;> omega
         have hsurv : ∀ u, Survives ms m (a :: rest) u ↔ TopPrio m (a :: rest) u := by
@@ -344,7 +349,7 @@ theorem iter_survivors (ms : Bool) (m : Nat → Option Nat) :
               rcases List.mem_cons.mp hu with h | h
               · subst h; exact hnd hup
               · have : u.prio ≤ c.prio :=
-                  before_prio_le (hwf c (by simp)) (hwf u (by simp [h])) (hs.2.1 u h)
+                  before_prio_le (hs.2.1 u h)
                 omega
           constructor
           · rintro ⟨rfl, rfl⟩; exact ⟨hTa, hma⟩
@@ -361,7 +366,7 @@ theorem iter_survivors (ms : Bool) (m : Nat → Option Nat) :
             | cons c r =>
               simp only [nextDiffers, bne_eq_false_iff_eq] at hnd'
               exact hnd'
-          rw [iter_group ms m a.prio rest hs.2 (fun u hu => hwf u (by simp [hu])) hnostr hhead t l]
+          rw [iter_group ms m a.prio rest hs.2 hnostr hhead t l]
           constructor
           · rintro (⟨rfl, rfl⟩ | ⟨hin, htp, hm⟩)
             · exact ⟨hTa, hma⟩
